@@ -214,3 +214,45 @@ def r5_4(rep):
         f = rep.need(prog.fn("clang::Cursor::" + meth), "Cursor::" + meth)
         calls = [c.get("callee", "").split("::")[-1] for c in f.calls() if "clang_get" in (c.get("callee") or "")]
         rep.check(calls == [ffi], "clang:" + meth, "Cursor::%s calls %s (found %s)" % (meth, ffi, calls), f.loc(f.root))
+
+
+NARROW = {"i8", "u8", "i16", "u16", "i32", "u32", "f32"}
+
+
+def narrow_nodes(b, e, depth=4, seen=None):
+    """sub-expressions on the value's dataflow whose type is narrower than 64 bits (immutable locals expanded)"""
+    out = []
+    seen = seen if seen is not None else set()
+    for x in b.walk(e):
+        t = b.ty(x)
+        if x["k"] in ("Call", "MCall", "Cast", "Local", "Binary", "Unary") and t in NARROW:
+            out.append((x, t))
+        if x["k"] == "Local" and depth > 0 and x["id"] not in seen:
+            seen.add(x["id"])
+            init = b.local_init(x["id"])
+            if init is not None:
+                out += narrow_nodes(b, init, depth - 1, seen)
+    return out
+
+
+@RULES.rule("R5.5", "values evaluated by libclang reach bindgen at full width (no pass through a 32-bit type)", floor=6)
+def r5_5(rep):
+    """`clang_EvalResult_getAsInt` returns a C int: routing a `long long` constant through it keeps the right Rust type
+    but silently truncates the value (`1L<<40` becomes 0)."""
+    prog = rep.prog
+    want = {"clang::EvalResult::as_int": ({"clang_EvalResult_getAsLongLong", "clang_EvalResult_getAsUnsigned"}, "i64"),
+            "clang::EvalResult::as_double": ({"clang_EvalResult_getAsDouble"}, "f64"),
+            "clang::Cursor::enum_val_signed": ({"clang_getEnumConstantDeclValue"}, "i64"),
+            "clang::Cursor::enum_val_unsigned": ({"clang_getEnumConstantDeclUnsignedValue"}, "u64")}
+    for path, (ffi, ty) in want.items():
+        b = rep.need(prog.fn(path), path)
+        short = path.split("::")[-1]
+        got = {(c.get("callee") or "").split("::")[-1] for c in b.calls() if "clang_" in (c.get("callee") or "") and
+               ("getAs" in (c.get("callee") or "") or "getEnumConstant" in (c.get("callee") or ""))}
+        rep.check(got == ffi, "ffi:" + short, "%s reads the value with %s (found %s)" % (short, sorted(ffi), sorted(got)), b.loc(b.root))
+        somes = [c for c in b.calls(lambda n: n["k"] == "Call" and (n.get("ctor") or "").endswith("Some"))]
+        rep.check(bool(somes), "returns:" + short, "%d value-returning sites" % len(somes), b.loc(b.root))
+        for c in somes:
+            bad = narrow_nodes(b, c["args"][0])
+            rep.check(not bad, "full-width:" + short, "the returned %s never passes through a narrower type%s" %
+                      (ty, (" (found %s: %s)" % (bad[0][1], b.canon(bad[0][0], 3)[:60])) if bad else ""), b.loc(c))
